@@ -740,7 +740,9 @@ func c11FromJSON(ctx *Ctx, r *Report) {
 	// (4) nullable-aware decoding
 	nullableF := astField(ctx, "Type", "Nullable")
 	reads := false
-	for _, name := range []string{"fromJSONForTypeRec", "generateFromJSONMethod", "disjunctionFromJSON"} {
+	// (the method generator reads Nullable for another purpose — explicit nulls of defaulted properties — which says
+	// nothing about the nested from_json calls: only the two functions that write those calls count)
+	for _, name := range []string{"fromJSONForTypeRec", "disjunctionFromJSON"} {
 		for _, f := range p.Syntax {
 			for _, d := range f.Decls {
 				if x, ok := d.(*ast.FuncDecl); ok && x.Name.Name == name && x.Body != nil {
